@@ -6,8 +6,22 @@
      (3 heap L1 L2)     period_union(L1, L2)
    heap = (cell ...), location = index;  cell = (0 id? ts dur (kid ...)) an Event
                                               | (1 payload (kid ...))   a dict / list
-   Result: (0 (heap' L')) | (1 errcode) | (2)     L' = location of the returned list. *)
-From AwVerif Require Import Base.Prelude Base.Sexp Model.MemHeap Model.Timeslot Model.TransformHeap.
+   Result: (0 (heap' L')) | (1 errcode) | (2)     L' = location of the returned list.
+
+   C16 (Model/GroupHeap.v; task B8).  Data dicts with structure travel as skeletons
+     cell = (2 (entry ...) (kid ...))   entry = (key 1 scalar-label) | (key 0)  [0: next kid]
+   and are turned into / printed back from the payload code of Model/DictHeap.v here (a
+   payload below -10 is such a code).  Calls:
+     (10 heap L)                       sort_by_timestamp
+     (11 heap L)                       sort_by_duration
+     (12 heap L count)                 limit_events
+     (13 heap L1 L2)                   concat
+     (14 heap L key (val ...) excl)    filter_keyvals (excl = 0/1)
+     (15 heap L (key ...))             merge_events_by_keys
+     (16 heap L key pulse sub_key)     chunk_events_by_key (pulse in us)
+     (17 heap L)                       sum_durations          -> (0 sum) | (1 errcode) *)
+From AwVerif Require Import Base.Prelude Base.Sexp Model.MemHeap Model.Timeslot Model.TransformHeap
+  Model.DictHeap Model.GroupHeap.
 From Coq Require Import Arith.
 Require Extraction.
 Require Import ExtrOcamlBasic.
@@ -18,6 +32,19 @@ Definition loc_s (l : loc) : sexp := A (Z.of_nat l).
 Definition sLocs (x : sexp) : option (list loc) :=
   match sZs x with Some zs => Some (map nat_of zs) | None => None end.
 
+Definition sEntry (x : sexp) : option hentry :=
+  match x with
+  | L [A k; A 1; A v] => Some (k, Some v)
+  | L [A k; A 0] => Some (k, None)
+  | _ => None
+  end.
+
+Definition entry_s (e : hentry) : sexp :=
+  match e with
+  | (k, Some v) => L [A k; A 1; A v]
+  | (k, None) => L [A k; A 0]
+  end.
+
 Definition sCell (x : sexp) : option cell :=
   match x with
   | L [A 0; i; A t; A d; ks] =>
@@ -27,13 +54,20 @@ Definition sCell (x : sexp) : option cell :=
       end
   | L [A 1; A p; ks] =>
       match sLocs ks with Some ks => Some (Cell (TNode p) ks) | None => None end
+  | L [A 2; sk; ks] =>
+      match sList sEntry sk, sLocs ks with
+      | Some d, Some ks => Some (Cell (TNode (denc d)) ks)
+      | _, _ => None
+      end
   | _ => None
   end.
 
 Definition cell_s (c : cell) : sexp :=
   match c with
   | Cell (TEv i t d) ks => L [A 0; optZ_s i; A t; A d; L (map loc_s ks)]
-  | Cell (TNode p) ks => L [A 1; A p; L (map loc_s ks)]
+  | Cell (TNode p) ks =>
+      if p <? -10 then L [A 2; L (map entry_s (ddec p)); L (map loc_s ks)]
+      else L [A 1; A p; L (map loc_s ks)]
   end.
 
 Definition sHeap : sexp -> option heap := sList sCell.
@@ -62,6 +96,46 @@ Definition driver_entry (s : sexp) : sexp :=
   | L [A 3; hp; A l1; A l2] =>
       match sHeap hp with
       | Some h => out_s (period_union_h h (nat_of l1) (nat_of l2))
+      | None => bad_case
+      end
+  | L [A 10; hp; A l] =>
+      match sHeap hp with
+      | Some h => out_s (sort_by_timestamp_h h (nat_of l))
+      | None => bad_case
+      end
+  | L [A 11; hp; A l] =>
+      match sHeap hp with
+      | Some h => out_s (sort_by_duration_h h (nat_of l))
+      | None => bad_case
+      end
+  | L [A 12; hp; A l; A c] =>
+      match sHeap hp with
+      | Some h => out_s (limit_events_h h (nat_of l) c)
+      | None => bad_case
+      end
+  | L [A 13; hp; A l1; A l2] =>
+      match sHeap hp with
+      | Some h => out_s (concat_h h (nat_of l1) (nat_of l2))
+      | None => bad_case
+      end
+  | L [A 14; hp; A l; A key; vals; A excl] =>
+      match sHeap hp, sZs vals with
+      | Some h, Some vs => out_s (filter_keyvals_h h (nat_of l) key vs (negb (excl =? 0)))
+      | _, _ => bad_case
+      end
+  | L [A 15; hp; A l; keys] =>
+      match sHeap hp, sZs keys with
+      | Some h, Some ks => out_s (merge_events_by_keys_h h (nat_of l) ks)
+      | _, _ => bad_case
+      end
+  | L [A 16; hp; A l; A key; A pulse; A sub] =>
+      match sHeap hp with
+      | Some h => out_s (chunk_events_by_key_h sub h (nat_of l) key pulse)
+      | None => bad_case
+      end
+  | L [A 17; hp; A l] =>
+      match sHeap hp with
+      | Some h => res_s (fun z => A z) (sum_durations_h h (nat_of l))
       | None => bad_case
       end
   | _ => bad_case
